@@ -20,6 +20,7 @@ def genFacts9 : Facts9 :=
     identity := Generated.identityMarkers
     moduleWrites := Generated.matchModuleWrites
     userAttrs := Generated.matchUserAttrs
-    targetTests := Generated.matchTargetTests }
+    targetTests := Generated.matchTargetTests
+    identityTests := Generated.matchIdentityTests }
 
 end Glom.C09
